@@ -200,19 +200,23 @@ func batchPerMessage(c *Ctx, rule string) {
 	p := c.P
 	sub := p.MustMethod("gossip", "BatchProcessor", "Subscribe")
 	n := 0
-	for _, fn := range append([]*ssa.Function{sub}, Anons(sub)...) {
+	seenFn := map[*ssa.Function]bool{}
+	for _, fn := range append(append([]*ssa.Function{sub}, Anons(sub)...), p.FuncsWithGo(sub, 3)...) {
+		if seenFn[fn] {
+			continue
+		}
+		seenFn[fn] = true
 		fn := fn
 		eachInstr(fn, func(in ssa.Instruction) {
 			cc := callCommon(in)
 			if cc == nil || cc.StaticCallee() == nil || cc.StaticCallee().Name() != "Decode" || len(cc.Args) == 0 || !namedIs(cc.Args[0].Type(), "protocol", "BatchSnapshots") {
 				return
 			}
-			if !inCycle(in.Block()) {
-				return
-			}
 			n++
+			// allocated as often as it is decoded into: in the same function, and not hoisted out of the loop the
+			// decode runs in (a per-message helper allocates and decodes once per call)
 			al, ok := cc.Args[0].(*ssa.Alloc)
-			fresh := ok && al.Parent() == fn && inCycle(al.Block())
+			fresh := ok && al.Parent() == fn && !(inCycle(in.Block()) && !inCycle(al.Block()))
 			c.Check(fresh, rule, funcName(sub)+":batch-per-message", in.Pos(), "decoded into a batch allocated for this message", "the batch a message is decoded into is not allocated inside the processing loop ("+p.TermOf(cc.Args[0]).String()+"): tasks queued for an earlier message hold the same object and, when they run, see the batch of a later one")
 		})
 	}
